@@ -506,7 +506,7 @@ func TestVerifC08Drift(t *testing.T) {
 				}
 				l := pick(t, "bindPod", func(l *c08Life) bool { return l.assumed != nil && l.obj != nil && l.obj.Spec.NodeName == "" })
 				node := l.assumed.Spec.NodeName
-				elsewhere := rapid.IntRange(0, 9).Draw(t, "boundElsewhere") == 0
+				elsewhere := rapid.IntRange(0, 3).Draw(t, "boundElsewhere") == 0
 				if elsewhere {
 					node = rapid.SampledFrom(s.nodeNames).Draw(t, "otherNode")
 				}
@@ -542,6 +542,18 @@ func TestVerifC08Drift(t *testing.T) {
 				}
 				if kind == "nodeName" && (n.Spec.NodeName == "" || rapid.IntRange(0, 1).Draw(t, "reallyMove") == 0) {
 					kind = "conditions"
+				}
+				// the pod is bound to one node but also cached on another (still assumed there): the deciding move is onto that node
+				cachedElsewhere := ""
+				if n.Spec.NodeName != "" && !c08Terminated(n) {
+					for _, x := range s.nodeNames {
+						if x != n.Spec.NodeName && s.nodes[x].pods[n.UID] != nil && s.nodes[n.Spec.NodeName].pods[n.UID] != nil {
+							cachedElsewhere = x
+						}
+					}
+				}
+				if cachedElsewhere != "" && rapid.IntRange(0, 2).Draw(t, "moveOntoCached") > 0 {
+					kind = "nodeName"
 				}
 				switch kind {
 				case "resources":
@@ -685,6 +697,13 @@ func TestVerifC08Drift(t *testing.T) {
 						}
 					}
 					n.Spec.NodeName = rapid.SampledFrom(others).Draw(t, "moveTo")
+					if cachedElsewhere != "" {
+						n.Spec.NodeName = cachedElsewhere
+						s.classes["nodeName-change-onto-node-already-caching-the-pod"] = true
+						if s.nodes[cachedElsewhere].metric != nil || s.nodes[l.obj.Spec.NodeName].metric != nil {
+							s.classes["nodeName-change-onto-caching-node(metric present)"] = true
+						}
+					}
 					s.classes["nodeName-change"] = true
 				case "metadata":
 					n.Labels["touched"] = fmt.Sprint(len(s.hist))
